@@ -79,7 +79,9 @@ func OtherSeg(rt *rapid.T, label string) Seg {
 	case 4:
 		return Seg{Marker: 0xED, Payload: append([]byte("Photoshop 3.0\x008BIM"), randomPayload(rt, label, 200)...), Kind: "other"}
 	case 5:
-		return Seg{Marker: 0xDD, Payload: []byte{0x00, 0x10}, Kind: "dri"}
+		// restart interval: any 16-bit value, including ones that look like markers
+		ri := rapid.SampledFrom([][]byte{{0x00, 0x10}, {0x00, 0x00}, {0xFF, 0xDB}, {0xFF, 0xE1}, {0xFF, 0xD9}, {0xFF, 0xD8}, {0xFF, 0x00}, {0xFF, 0xFE}, {0x12, 0xFF}}).Draw(rt, label+".ri")
+		return Seg{Marker: 0xDD, Payload: append([]byte{}, ri...), Kind: "dri"}
 	case 6: // Exif-looking payload under a marker other than APP1
 		m := rapid.SampledFrom([]byte{0xE0, 0xE2, 0xE3, 0xEC, 0xEF, 0xFE}).Draw(rt, label+".m")
 		return Seg{Marker: m, Payload: append([]byte("Exif\x00\x00II*\x00\x08\x00\x00\x00\x00\x00"), randomPayload(rt, label, 60)...), Kind: "other"}
